@@ -133,8 +133,11 @@ def draw_base(rng, i):
         case = C.draw_partition_case(rng, alg=alg, classes=("small", "ties", "equal", "zeros", "perfect", "powers", "onehuge", "bignear"), pres="list")
         if alg == "rnp" and case["k"] > 3:
             case["k"] = 3
-        if alg in ("ckk", "snp", "rnp", "dp", "ilp", "cg") and len(case["values"]) > 7:
-            case["values"] = case["values"][:7]
+        lim = 9 if (alg in ("snp", "cg") and case["k"] <= 4) else 7       # snp / complete greedy are affordable at 9 items (their pruning defects need >= 9 items, >= 4 bins)
+        if alg in ("ckk", "snp", "rnp", "dp", "ilp", "cg") and len(case["values"]) > lim:
+            case["values"] = case["values"][:lim]
+        if alg in ("snp", "cg") and case["k"] in (3, 4) and len(case["values"]) < 8 and rng.random() < 0.5:
+            case["values"] = case["values"] + [rng.randint(1, 30) for _ in range(9 - len(case["values"]))]
         if alg == "ilp":
             case["values"] = [min(v, 20) for v in case["values"]]       # scaled values must stay <= 200 x 1024? no: ILP is scaled by 2..10 only (see below)
         if alg == "cg":
